@@ -45,41 +45,61 @@ Definition lmax (l : list Z) : Z := fold_right Z.max 0 l.
 Definition lmin (l : list Z) : Z := match l with [] => 0 | x :: r => fold_right Z.min x r end.
 
 (* one resource of a report: zero when switched off, else the floor of the
-   weighted mean, between the smallest and the largest sample *)
-Definition law_report1 (on : bool) (l : list Z) (got : Z) : bool :=
+   weighted mean (between the smallest and the largest sample) or, when that
+   exceeds it, the cap lim = ratio% of the current allocatable (None: no cap) *)
+Definition law_report1 (on : bool) (l : list Z) (lim : option Z) (got : Z) : bool :=
   if on then
     let '(s, t) := wsum 1 l in
-    (lmin l <=? got) && (got <=? lmax l) && (0 <=? got) &&
-    (got * t <=? s) && (s <? (got + 1) * t)
+    (got <=? lmax l) && (0 <=? got) &&
+    (((lmin l <=? got) && (got * t <=? s) && (s <? (got + 1) * t) &&
+      match lim with Some x => got <=? x | None => true end)
+     || match lim with Some x => (got =? x) && ((x + 1) * t <=? s) | None => false end)
   else got =? 0.
 
-Definition law_report (q : list (Z * Z)) (cfg : list Z) (annot : option (list Z)) (ev : option (Z * Z)) : bool :=
+Definition cap_limit (ratio alloc : Z) : option Z :=
+  if ratio <=? 0 then None else Some (alloc * ratio / 100).
+
+Definition law_report (q : list (Z * Z)) (cfg : list Z) (annot : option (list Z))
+                      (ratio acpu amem : Z) (ev : option (Z * Z)) : bool :=
   match q with
   | [] => match ev with None => true | Some _ => false end
   | _ =>
     (* the queue never holds more than ten samples *)
     Nat.leb (length q) 10 &&
-    if forallb (fun s => zin 0 max_alloc (fst s) && zin 0 max_alloc (snd s)) q
+    if forallb (fun s => zin 0 max_alloc (fst s) && zin 0 max_alloc (snd s)) q &&
+       zin 0 100 ratio && zin 0 max_alloc acpu && zin 0 max_alloc amem
     then match ev with
          | None => false
          | Some (c, m) =>
              let ty := effective_types cfg annot in
-             law_report1 (has_type 1 ty) (map fst q) c && law_report1 (has_type 2 ty) (map snd q) m
+             law_report1 (has_type 1 ty) (map fst q) (cap_limit ratio acpu) c &&
+             law_report1 (has_type 2 ty) (map snd q) (cap_limit ratio amem) m
          end
     else true
   end.
 
 (* a whole history: every reported amount is within [0, ratio% of the largest
    allocatable seen]; samples = (acpu, amem, ucpu, umem) of every sampling step *)
-Definition law_history (ratio : Z) (pods : list pod) (samples : list (Z * Z * Z * Z)) (events : list (Z * Z)) : bool :=
+Definition law_history (ratio : Z) (pods : list pod) (samples : list (Z * Z * Z * Z))
+                       (events : list (Z * Z * Z * Z)) : bool :=
   if ratio_ok ratio && pods_ok pods &&
      forallb (fun '(ac, am, uc, um) => zin 0 max_alloc ac && zin 0 max_alloc am &&
                                        zin 0 max_amount uc && zin 0 max_amount um) samples
   then
     let ac := lmax (map (fun '(ac, _, _, _) => ac) samples) in
     let am := lmax (map (fun '(_, am, _, _) => am) samples) in
-    forallb (fun ev => (0 <=? fst ev) && (fst ev * 100 <=? ac * ratio) &&
-                       (0 <=? snd ev) && (snd ev * 100 <=? am * ratio)) events
+    (* events = (allocatable cpu, memory at the report step, reported cpu, memory) *)
+    forallb (fun '(rc, rm, c, m) =>
+               if zin 0 max_alloc rc && zin 0 max_alloc rm
+               then (0 <=? c) && (c * 100 <=? ac * ratio) && (0 <=? m) && (m * 100 <=? am * ratio)
+               else true) events
+  else true.
+
+(* one emitted event against the node's CURRENT allocatable (after fix 21d1eba);
+   holds whatever the samples in the queue are (non-negativity is law 102 / 103) *)
+Definition law_event_current (ratio acpu amem : Z) (ev : Z * Z) : bool :=
+  if ratio_ok ratio && zin 0 max_alloc acpu && zin 0 max_alloc amem
+  then (fst ev * 100 <=? acpu * ratio) && (snd ev * 100 <=? amem * ratio)
   else true.
 
 (* ---------- eviction ---------- *)
@@ -143,10 +163,19 @@ Definition law_evict (res : Z) (pods : list pod) (calls : list (Z * bool)) (afte
                       else true) pods
   else true.
 
-(* turning over-subscription off: calls = everything that reached the client *)
-Definition law_cleanup (pods : list pod) (calls : list (Z * bool)) (after : list Z) : bool :=
+(* turning over-subscription off: per round the calls of the cpu pass and of the
+   memory pass; within a pass largest request first and nothing after a success *)
+Definition flat_passes (passes : list (list (Z * bool) * list (Z * bool))) : list (Z * bool) :=
+  flat_map (fun p => fst p ++ snd p) passes.
+
+Definition pass_ok (res : Z) (pods : list pod) (calls : list (Z * bool)) : bool :=
+  descending (map (call_req res pods) calls) && success_only_last calls.
+
+Definition law_cleanup (pods : list pod) (passes : list (list (Z * bool) * list (Z * bool))) (after : list Z) : bool :=
+  let calls := flat_passes passes in
   if nodupb (map p_id pods) then
     forallb (call_eligible pods) calls &&
     nodupb (succeeded calls) &&
+    forallb (fun p => pass_ok 1 pods (fst p) && pass_ok 2 pods (snd p)) passes &&
     zlist_eqb after (map p_id (filter (fun p => negb (zmem (p_id p) (succeeded calls))) pods))
   else true.
